@@ -264,20 +264,9 @@ func (d *Decoder) readObjectDef() (interface{}, error) {
 	//add to slice
 	d.clsDefList = append(d.clsDefList, clsD)
 
-	tag, err := d.readTag()
-	if err != nil {
-		hlog.Debugf("reading tag err:%v", err)
-		return nil, nil //ignore
-	}
-
-	if objectLenTag(tag) {
-		return d.ReadLenTagObject(tag)
-	}
-
-	if tag == _objectTag {
-		return d.readTagObject()
-	}
-	return nil, newCodecError("readObjectDef", "unknown tag after class def: 0x%x", tag)
+	// a class definition may precede any value (value ::= class-def value),
+	// not only an instance of the class it defines
+	return d.ReadData()
 }
 
 // var readObjectIndex = 0
